@@ -25,6 +25,7 @@ type c05cfg struct {
 	narrow  bool // explore schedules only while the outage lasts (retry chains of both hubs)
 	simple  bool // the hubs use the in-memory SimpleMdns (synchronous answers) instead of the MdnsManager
 	early   string // "restartA" / "restartB": that hub is shut down (and replaced 2 s later) while the first connection is being set up
+	c01     string // "" | "unregister" | "cancel": C01 scenario, the surviving hub withdraws the trust after the power cycle of its peer
 }
 
 func (c c05cfg) name() string {
@@ -40,6 +41,9 @@ func (c c05cfg) name() string {
 	}
 	if c.early != "" {
 		n += "/early-" + c.early
+	}
+	if c.c01 != "" {
+		n += "/then-" + c.c01
 	}
 	return n
 }
@@ -232,6 +236,10 @@ func c05Body(c c05cfg) func() {
 				simrt.Unmark()
 			}
 		}
+		if c.c01 != "" {
+			c01AfterPowerCycle(w, c)
+			return
+		}
 		// quiet period: three full back-off cycles (one and a half in the deeper schedule explorations)
 		q := c.quiet
 		if q == 0 {
@@ -423,6 +431,70 @@ func c05Scenarios(r *hx.Run) []hx.Scenario {
 			c := c05cfg{swap: swap, order: "together", reg: reg, quiet: 35 * time.Second}
 			out = append(out, hx.Scenario{Name: "c05:race:" + c.name(), Body: c05Body(c), Bounds: simrt.Bounds{Preempt: d, Fault: 0, Total: d},
 				Cfg: simrt.Config{MaxSteps: 600000, BranchAfterMark: true, DelayBounding: true, BranchOnly: []string{"prepareConnectionInitation", "http.serve", "keepThisConnection"}}})
+		}
+	}
+	return out
+}
+
+// c01AfterPowerCycle: C01 on a double connection. The peer of the surviving hub was power cycled and has connected
+// again (the survivor replaced its dead connection by the new one, or is about to). The survivor's user now withdraws
+// the trust; from then on nothing of that peer may reach the survivor's application, whatever connection it arrives on.
+func c01AfterPowerCycle(w *c05world, c c05cfg) {
+	surv, peer := w.b, w.a
+	if strings.HasSuffix(c.dist[0], "B") {
+		surv, peer = w.a, w.b
+	}
+	if c.c01 == "cancel" {
+		surv.Hub.CancelPairingWithSKI(peer.SKI)
+	} else {
+		surv.Hub.UnregisterRemoteSKI(peer.SKI)
+	}
+	// what is in flight at that moment may still arrive
+	simrt.RunFor(500 * time.Millisecond)
+	np, ns := surv.App.Count("payload", peer.SKI), surv.App.Count("setup", peer.SKI)
+	for i := 0; i < 3; i++ {
+		if wr := peer.App.Writers[surv.SKI]; wr != nil {
+			wr.WriteShipMessageWithPayload([]byte(fmt.Sprintf(`{"datagram":{"from":"untrusted","n":%d}}`, i)))
+		}
+		simrt.RunFor(25 * time.Second)
+	}
+	dp, ds := surv.App.Count("payload", peer.SKI)-np, surv.App.Count("setup", peer.SKI)-ns
+	if dp > 0 {
+		simrt.Fail("C01|payload-from-untrusted", "%d SPINE payload(s) of the peer were handed to the application after %s returned", dp, c.c01)
+	}
+	if ds > 0 {
+		simrt.Fail("C01|setup-of-untrusted", "the device of the peer was set up %d time(s) after %s returned", ds, c.c01)
+	}
+	open := 0
+	for _, l := range fakews.Links() {
+		if !l.Client.IsClosed() && !l.Server.IsClosed() {
+			open++
+		}
+	}
+	simrt.Outcome(fmt.Sprintf("payloads=%d setups=%d open=%d", dp, ds, open))
+}
+
+func c01PowerCycleScenarios(r *hx.Run) []hx.Scenario {
+	var out []hx.Scenario
+	for _, swap := range []bool{false, true} {
+		for _, d := range []string{"hardRestartA", "hardRestartB"} {
+			// (cancelling the pairing does not close a completed connection, so only unregistering is decidable here)
+			for _, op := range []string{"unregister"} {
+				higherRestarts := (d == "hardRestartA") != swap
+				if !higherRestarts {
+					continue // the survivor keeps its dead connection and refuses the new one: no double connection at the survivor
+				}
+				if !r.Thorough() && swap && op == "cancel" {
+					continue
+				}
+				c := c05cfg{swap: swap, order: "together", reg: "before", dist: []string{d}, narrow: true, c01: op}
+				dd := 2
+				if r.Thorough() {
+					dd = 3
+				}
+				out = append(out, hx.Scenario{Name: "c01:powercycle:" + c.name(), Body: c05Body(c), Bounds: simrt.Bounds{Preempt: dd, Fault: 0, Total: dd},
+					Cfg: simrt.Config{MaxSteps: 600000, BranchAfterMark: true, DelayBounding: true, BranchOnly: []string{"http.serve", "keepThisConnection"}}})
+			}
 		}
 	}
 	return out
